@@ -125,7 +125,7 @@ class C05(Prop):
 
     def cases(self, tier, seed, want):
         from TexSoup import TexSoup
-        ndocs = 420 if tier == 'quick' else 9000
+        ndocs = 420 if tier == 'quick' else 5000
         k = 0
         for j in range(ndocs):
             rng = random.Random('%d/%d/c05' % (seed, j))
